@@ -299,6 +299,13 @@ def population(rnd: random.Random, year: int, n_households: int, templates=None,
             cands = [r for r in persons if not r["kind"] and r["hh_id"] != q["hh_id"] and 25 <= r["alter"] <= 60]
             if cands:
                 q["p_id_elternteil_2"] = rnd.choice(cands)["p_id"]
+    # inputs at tax-unit level are constant within a jointly assessed couple (a valid population)
+    by_id = {q["p_id"]: q for q in persons}
+    for q in persons:
+        sp = by_id.get(q["p_id_ehepartner"])
+        if sp is not None and q["gemeinsam_veranlagt"] and sp["gemeinsam_veranlagt"]:
+            v = max(q["elterngeld_zu_verst_eink_vorjahr_y_sn"], sp["elterngeld_zu_verst_eink_vorjahr_y_sn"])
+            q["elterngeld_zu_verst_eink_vorjahr_y_sn"] = sp["elterngeld_zu_verst_eink_vorjahr_y_sn"] = v
     return persons
 
 
